@@ -365,6 +365,17 @@ def oracle(case):
 				up.parse(b'HTTP/%d.%d 200 OK' % (c, d))
 				if bytes(sp) != before:
 					return {'what': 'a message was given the server\'s version and then read HTTP/%d.%d: the server now speaks %r (before %r)' % (c, d, bytes(sp), before), 'finding': None}
+			# ... and a status handed from one response to another: code AND reason phrase (also onto a response that has the same code)
+			for code, phrase in ((200, b'Fine'), (404, b'Nope'), (100 + (a * 12 + b) * 7 % 500, b'Custom Phrase')):
+				upstream = Response()
+				upstream.parse(b'HTTP/1.1 %d %s' % (code, phrase))
+				answer = Response(code)
+				answer.status = upstream.status
+				if bytes(answer) != b'HTTP/1.1 %d %s\r\n' % (code, phrase):
+					return {'what': 'a response was given the status of another (%d %r): it composes %r' % (code, phrase, bytes(answer)), 'finding': None}
+				answer.status = 404
+				if bytes(answer) != b'HTTP/1.1 404 Not Found\r\n':
+					return {'what': 'a response with the status %d %r was then given the code 404: it composes %r' % (code, phrase, bytes(answer)), 'finding': None}
 		except Exception as e:
 			return {'what': 'handing a version from one message to another raised %s: %s' % (exc_name(e), e), 'finding': None}
 		return None
